@@ -177,6 +177,14 @@ func (n *GeneratorInterceptor) loop(rtcpWriter interceptor.RTCPWriter) {
 					continue
 				}
 
+				// forget the counters of packets that are not missing anymore, also on
+				// ticks that end up sending nothing
+				for nackSeq := range n.nackCountLogs[ssrc] {
+					if !slices.Contains(missing, nackSeq) {
+						delete(n.nackCountLogs[ssrc], nackSeq)
+					}
+				}
+
 				var nack *rtcp.TransportLayerNack
 
 				count := 0
@@ -205,12 +213,6 @@ func (n *GeneratorInterceptor) loop(rtcpWriter interceptor.RTCPWriter) {
 						SenderSSRC: senderSSRC,
 						MediaSSRC:  ssrc,
 						Nacks:      rtcp.NackPairsFromSequenceNumbers(missing),
-					}
-				}
-
-				for nackSeq := range n.nackCountLogs[ssrc] {
-					if !slices.Contains(missing, nackSeq) {
-						delete(n.nackCountLogs[ssrc], nackSeq)
 					}
 				}
 
